@@ -3,6 +3,7 @@ From BBF Require Import Base.Prelude Base.Names Base.Bits Spec.Sem
      Model.Expr Model.Table Model.LibBdd Model.Bdd
      Proofs.ExprProofs Proofs.TableProofs Proofs.QuantProofs Proofs.NfProofs Proofs.DdProofs Proofs.BddProofs Proofs.BddOps
      Proofs.ConvProofs Proofs.RenderProofs Proofs.EnumProofs Proofs.CountProofs Proofs.EnumAgree.
+From BBF Require Import Model.Lexer Model.Parser Model.Display Model.Render Model.Csv Model.Prog Proofs.ProgProofs Proofs.ConvChain Proofs.ObsProofs.
 Theorem C10_domain_size : forall n, length (points n) = 2 ^ n.
 Proof. exact points_length. Qed.
 Print Assumptions C10_domain_size.
@@ -63,6 +64,19 @@ Theorem C10_representations_agree : forall e b, bdd_of_expr e = Ok b ->
   e_weight e = t_weight t /\ t_weight t = b_weight b.
 Proof. exact enumerations_agree. Qed.
 Print Assumptions C10_representations_agree.
+
+(* an object of any representation (what the model runner prints) *)
+Theorem C10_object : forall o, owf o ->
+  let ins := decl o in
+  obj_domain o = points (length ins) /\
+  obj_image o = map (fun p => osem o (env_of ins p)) (obj_domain o) /\
+  obj_relation o = combine (obj_domain o) (obj_image o) /\
+  obj_support o = filter (fun p => osem o (env_of ins p)) (obj_domain o) /\
+  obj_weight o = N.of_nat (length (obj_support o)) /\
+  (forall p, obj_sat_point o = Some p -> In p (obj_support o)) /\
+  (obj_sat_point o = None <-> obj_support o = []).
+Proof. exact obj_enumerations_spec. Qed.
+Print Assumptions C10_object.
 
 Example C10_example : e_relation (And [Lit [97%N]; Not (Lit [98%N])]) =
   [([false; false], false); ([false; true], false); ([true; false], true); ([true; true], false)].
